@@ -6,6 +6,7 @@
 (*      | [k: "bin", op, l, r]     op in add sub mul div mod lt le gt ge eq ne *)
 (*                                       and or xor                            *)
 (*      | [k: "call", fn, args]                                                *)
+(*      | [k: "special", c]  a number outside the window (see Special)          *)
 (*                                                                            *)
 (* Eval(e, env) = [st, v, log]                                                 *)
 (*   st  : "ok" | "err" (a script-level fault: the statement yields an error)  *)
@@ -23,12 +24,44 @@
 (* call arguments left to right exactly once, then the call.                   *)
 EXTENDS YarnValues
 
+\* Deviations from the specified design, switched on only to show that a property's
+\* configuration is not vacuous (TLC must then find a counterexample).
+CONSTANT Bug    \* record of BOOLEAN switches, see NoBugs
+
+NoBugs == [stopKeepsStack |-> FALSE, staleChoiceAfterEnd |-> FALSE,
+           restoreKeepsWaiting |-> FALSE, visitOnEntry |-> FALSE,
+           secondClauseAlsoRuns |-> FALSE, jumpKeepsStack |-> FALSE,
+           pendingPollReruns |-> FALSE, failedSetWrites |-> FALSE,
+           eagerAnd |-> FALSE]
+
+Bug_stopKeepsStack == [NoBugs EXCEPT !.stopKeepsStack = TRUE]
+Bug_staleChoiceAfterEnd == [NoBugs EXCEPT !.staleChoiceAfterEnd = TRUE]
+Bug_restoreKeepsWaiting == [NoBugs EXCEPT !.restoreKeepsWaiting = TRUE]
+Bug_visitOnEntry == [NoBugs EXCEPT !.visitOnEntry = TRUE]
+Bug_secondClauseAlsoRuns == [NoBugs EXCEPT !.secondClauseAlsoRuns = TRUE]
+Bug_jumpKeepsStack == [NoBugs EXCEPT !.jumpKeepsStack = TRUE]
+Bug_pendingPollReruns == [NoBugs EXCEPT !.pendingPollReruns = TRUE]
+Bug_failedSetWrites == [NoBugs EXCEPT !.failedSetWrites = TRUE]
+
+Bug_eagerAnd == [NoBugs EXCEPT !.eagerAnd = TRUE]
+
+
 R(st, v, log) == [st |-> st, v |-> v, log |-> log]
 Ok(v, log)  == R("ok", v, log)
 Err(log)    == R("err", Unset, log)
 Oos(log)    == R("oos", Unset, log)
 
 FromNorm(r, log) == IF r.ok THEN Ok(r.v, log) ELSE Oos(log)
+
+\* Numbers outside the window that the domain checks of the random built-ins need (C06):
+\* [t |-> "n", n |-> code, d |-> 0]; they only ever travel from a literal to a call argument,
+\* every other use is out of scope.
+\*   code 1 +Inf, -1 -Inf, 0 NaN, 3 / -3 finite beyond int64, 2 / -2 = +-2^62 (fits int64)
+Special(c) == [t |-> "n", n |-> c, d |-> 0]
+SpecialCode(name) == CASE name = "inf" -> 1 [] name = "neginf" -> -1 [] name = "nan" -> 0
+                       [] name = "huge" -> 3 [] name = "neghuge" -> -3 [] name = "big" -> 2 [] name = "negbig" -> -2
+IsSpecial(v) == v.t = "n" /\ v.d = 0
+NotInt64(v) == IsSpecial(v) /\ v.n \in {1, -1, 0, 3, -3}
 
 \* ---- the operator table on two values already known to be of the same type
 Arith(op, a, b, log) ==
@@ -40,7 +73,8 @@ Arith(op, a, b, log) ==
     [] op = "mod" -> IF b.n = 0 THEN Oos(log) ELSE FromNorm(RMod(a, b), log)
 
 BinOp(op, a, b, log) ==
-  IF a.t # b.t THEN Err(log)                            \* operands of different types
+  IF IsSpecial(a) \/ IsSpecial(b) THEN Oos(log)
+  ELSE IF a.t # b.t THEN Err(log)                            \* operands of different types
   ELSE CASE op \in {"add", "sub", "mul", "div", "mod"} ->
               IF IsNum(a) THEN Arith(op, a, b, log)
               ELSE IF IsStr(a) /\ op = "add" THEN Ok(Str(a.s \o b.s), log)
@@ -76,7 +110,30 @@ CallFn(kind, args, env, log) ==
          IF Len(args) # 1 \/ ~IsStr(args[1]) THEN Err(log)
          ELSE Ok(IntV(IF args[1].s \in env.nodes THEN env.visits[args[1].s] ELSE 0), log)
     [] kind = "string" ->
-         IF Len(args) # 1 \/ args[1].t = "u" THEN Err(log) ELSE Ok(Str(Display(args[1])), log)
+         IF Len(args) # 1 \/ args[1].t = "u" THEN Err(log)
+         ELSE IF IsSpecial(args[1]) THEN Oos(log) ELSE Ok(Str(Display(args[1])), log)
+    \* dice(n): an integer in 1..n.  Out of domain (n < 1, NaN, +-Inf, beyond int64, not a
+    \* number, wrong count) is a script-level fault; in domain the drawn value is not
+    \* predictable (C09 bounds it), and for arguments the property only lists as values to
+    \* try (non-integers) either outcome is fine: no verdict beyond "no panic".
+    [] kind = "dice" ->
+         IF Len(args) # 1 \/ ~IsNum(args[1]) THEN Err(log)
+         ELSE LET a == args[1] IN
+              IF NotInt64(a) THEN Err(log)
+              ELSE IF IsSpecial(a) THEN (IF a.n < 0 THEN Err(log) ELSE Oos(log))
+              ELSE IF a.d # 1 THEN Oos(log)
+              ELSE IF a.n < 1 THEN Err(log) ELSE Oos(log)
+    \* random_range(a, b): an integer in a..b; a > b is out of domain
+    [] kind = "random_range" ->
+         IF Len(args) # 2 \/ ~IsNum(args[1]) \/ ~IsNum(args[2]) THEN Err(log)
+         ELSE LET a == args[1]  b == args[2] IN
+              IF NotInt64(a) \/ NotInt64(b) THEN Err(log)
+              ELSE IF IsSpecial(a) \/ IsSpecial(b) THEN
+                     (IF IsSpecial(a) /\ a.n > 0 /\ ~(IsSpecial(b) /\ b.n > 0) THEN Err(log)    \* 2^62 > b
+                      ELSE IF IsSpecial(b) /\ b.n < 0 /\ ~(IsSpecial(a) /\ a.n < 0) THEN Err(log) \* a > -2^62
+                      ELSE Oos(log))
+              ELSE IF a.d # 1 \/ b.d # 1 THEN Oos(log)
+              ELSE IF a.n > b.n THEN Err(log) ELSE Oos(log)
     [] kind = "number" ->
          IF Len(args) = 1 /\ IsNum(args[1]) THEN Ok(args[1], log)
          ELSE IF Len(args) = 1 /\ IsBool(args[1]) THEN Ok(IntV(IF args[1].b THEN 1 ELSE 0), log)
@@ -103,6 +160,7 @@ EvalArgs(args, i, env, acc) ==
 
 Eval(e, env) ==
   CASE e.k = "num"  -> FromNorm(Norm(e.n, e.d), <<>>)
+    [] e.k = "special" -> Ok(Special(SpecialCode(e.c)), <<>>)
     [] e.k = "bool" -> Ok(Bool(e.b), <<>>)
     [] e.k = "str"  -> Ok(Str(e.s), <<>>)
     [] e.k = "null" -> Err(<<>>)                     \* the null literal has no value (C06)
@@ -110,7 +168,8 @@ Eval(e, env) ==
                        THEN Ok(env.store[e.v], <<>>) ELSE Err(<<>>)
     [] e.k = "neg"  -> LET a == Eval(e.a, env) IN
                        IF a.st # "ok" THEN a
-                       ELSE IF ~IsNum(a.v) THEN Err(a.log) ELSE Ok(RNeg(a.v), a.log)
+                       ELSE IF ~IsNum(a.v) THEN Err(a.log)
+                       ELSE IF IsSpecial(a.v) THEN Oos(a.log) ELSE Ok(RNeg(a.v), a.log)
     [] e.k = "not"  -> LET a == Eval(e.a, env) IN
                        IF a.st # "ok" THEN a
                        ELSE IF ~IsBool(a.v) THEN Err(a.log) ELSE Ok(Bool(~a.v.b), a.log)
@@ -119,7 +178,7 @@ Eval(e, env) ==
          IF l.st # "ok" THEN l
          ELSE IF l.v.t = "u" THEN Err(l.log)          \* a function that returned nothing
          ELSE IF e.op \in {"and", "or"} /\ ~IsBool(l.v) THEN Err(l.log)
-         ELSE IF e.op = "and" /\ ~l.v.b THEN l         \* left decides: right not evaluated
+         ELSE IF e.op = "and" /\ ~l.v.b /\ ~Bug.eagerAnd THEN l   \* left decides: right not evaluated
          ELSE IF e.op = "or" /\ l.v.b THEN l
          ELSE LET r == Eval(e.r, env) IN
               IF r.st # "ok" THEN R(r.st, Unset, l.log \o r.log)
@@ -135,6 +194,8 @@ Eval(e, env) ==
 
 \* a value is required (line interpolation, set, condition, argument): a
 \* function that returns nothing used as a value is a script-level fault (C06)
+\* (a number outside the window reaching anything but a built-in's parameter: no verdict)
 EvalValue(e, env) == LET r == Eval(e, env) IN
-                     IF r.st = "ok" /\ r.v.t = "u" THEN Err(r.log) ELSE r
+                     IF r.st = "ok" /\ r.v.t = "u" THEN Err(r.log)
+                     ELSE IF r.st = "ok" /\ IsSpecial(r.v) THEN Oos(r.log) ELSE r
 =============================================================================
